@@ -20,6 +20,14 @@ VecPool(dim) ==
    ELSE {<<1, dim>>, <<dim, 1>>, <<2, 2>>, <<0, 1>>, <<1, dim + 1>>, <<dim, dim - 1>>, <<dim + 1, dim + 1>>})
   \cup {<<i>> : i \in {1, dim}}
   \cup (IF dim >= 3 THEN {<<dim, 1, dim>>, [k \in 1..dim |-> dim + 1 - k], <<1, 2, dim + 1>>} ELSE {})
+  \* full-length index vectors that start at 1 and end at dim but are NOT 1..dim (a repeat, an interior exchange, an interior
+  \* out-of-range entry): endpoint-and-length tests do not prove the identity; plus full-length vectors with repeats
+  \cup (IF dim >= 3 THEN {[k \in 1..dim |-> IF k = dim THEN dim ELSE IF k = 1 THEN 1 ELSE 1],
+                          [k \in 1..dim |-> IF k = 1 THEN 1 ELSE dim],
+                          [k \in 1..dim |-> IF k = 2 THEN dim + 1 ELSE IF k = dim THEN dim ELSE IF k = 1 THEN 1 ELSE k],
+                          [k \in 1..dim |-> IF k = 2 THEN 0 ELSE IF k = dim THEN dim ELSE IF k = 1 THEN 1 ELSE k],
+                          [k \in 1..dim |-> IF k = 1 THEN 1 ELSE k - 1]} ELSE {})
+  \cup (IF dim >= 4 THEN {[k \in 1..dim |-> IF k = 2 THEN 3 ELSE IF k = 3 THEN 2 ELSE k]} ELSE {})
 
 RangeSeq(a, b) == [k \in 1..(b - a + 1) |-> a + k - 1]
 RangePool(dim) ==
